@@ -1,6 +1,6 @@
 import TantivyModel.Proofs.Tokenizer
 import TantivyModel.Proofs.Fragments
-import TantivyModel.Proofs.Ngram
+import TantivyModel.Proofs.NgramSnippet
 /-!
 # C19 — Tokens and snippets always point inside the text, on character boundaries
 
@@ -211,34 +211,47 @@ theorem C19_highlights_inside_partial (s : Text) (M : Nat) (ts : List STok) (hc 
         IsBoundary sn.fragment h.1 ∧ IsBoundary sn.fragment h.2) ∧
       ∃ out, toHtml sn = some out := by
   obtain ⟨frags, e, hf⟩ := search_P2 s M ts hc hto
-  have fin : ∀ sn : Snippet, (∀ h ∈ sn.hl, h.1 ≤ h.2 ∧ h.2 ≤ byteLen sn.fragment ∧
-      IsBoundary sn.fragment h.1 ∧ IsBoundary sn.fragment h.2) → ∃ out, toHtml sn = some out := by
-    intro sn hall
-    obtain ⟨c1, c2⟩ := collapse_disjoint sn.hl (fun r hr => (hall r hr).1)
-    apply toHtmlAux_some sn.fragment (collapse sn.hl) 0 (isBoundary_zero _) _ c2
-    intro o ho
-    obtain ⟨⟨a, ha, ea⟩, ⟨b, hb, eb⟩⟩ := collapse_endpoints sn.hl o ho
-    have := c1 o ho
-    exact ⟨Nat.zero_le _, this, by rw [ea]; exact (hall a ha).2.2.1, by rw [eb]; exact (hall b hb).2.2.2⟩
-  simp only [snippet, e]
-  cases hb : selectBest frags with
-  | none => exact ⟨⟨[], []⟩, rfl, by simp, fin _ (by simp)⟩
-  | some f =>
-    obtain ⟨hfi, hin⟩ := hf f (selectBest_mem frags f hb)
-    simp only [mkSnippet_of_FI s f hfi]
-    obtain ⟨f1, f2, f3, f4, f5⟩ := hfi
-    have hall : ∀ h ∈ (f.hl.map fun h => (h.1 - f.start, h.2 - f.start)),
-        h.1 ≤ h.2 ∧ h.2 ≤ byteLen (sliceFrom 0 s f.start f.stop) ∧
-        IsBoundary (sliceFrom 0 s f.start f.stop) h.1 ∧ IsBoundary (sliceFrom 0 s f.start f.stop) h.2 := by
-      intro h hh
-      simp only [List.mem_map] at hh
-      obtain ⟨x, hx, rfl⟩ := hh
-      obtain ⟨q1, q2, q3, q4, q5⟩ := f5 x hx
-      have q6 := hin x hx
-      rw [byteLen_slice (Nat.zero_le _) f3 f4 f1]
-      exact ⟨by simp only; omega, by simp only; omega,
-        isBoundary_slice f3 q4 q1 (by omega), isBoundary_slice f3 q5 (by omega) q6⟩
-    exact ⟨_, rfl, hall, fin _ hall⟩
+  exact snippet_inside s M ts frags e hf
+
+/-- the same conclusion for token streams whose end offsets dip and recover like an n-gram
+enumeration (`RecOkN`: every new maximum of `offset_to` is immediately preceded by the previous
+maximum, and the last token holds the maximum), provided no single token is longer than
+`max_num_chars` -/
+theorem C19_highlights_inside_records_partial (s : Text) (M : Nat) (ts : List STok)
+    (hc : SContract s ts) (hlen : ∀ t ∈ ts, t.to - t.from_ ≤ M)
+    (hrec : RecOkN 0 0 (ts.map (·.to))) :
+    ∃ sn, snippet s M ts = some sn ∧
+      (∀ h ∈ sn.hl, h.1 ≤ h.2 ∧ h.2 ≤ byteLen sn.fragment ∧
+        IsBoundary sn.fragment h.1 ∧ IsBoundary sn.fragment h.2) ∧
+      ∃ out, toHtml sn = some out := by
+  obtain ⟨frags, e, hf⟩ := search_P6 s M ts hc hlen hrec
+  exact snippet_inside s M ts frags e hf
+
+/-- … instantiated: the full n-gram tokenizer (any `min ≤ max`), any text of valid scalar values,
+any query terms, any `max_num_chars` that no single n-gram exceeds (e.g. `4·max_gram` bytes):
+`snippet` and `to_html` do not panic and every highlight lies inside the fragment -/
+theorem C19_ngram_analyzer_snippet_safe_partial (s : Text) (hv : ∀ c ∈ s, c.code < 0x110000)
+    (minG maxG : Nat) (hmin : 0 < minG) (hle : minG ≤ maxG) (M : Nat) (sc : Token → Option Nat)
+    (hlen : ∀ t ∈ ngramTokens s minG maxG false, t.to - t.from_ ≤ M) :
+    ∃ sn, snippet s M ((ngramTokens s minG maxG false).map (toSTok sc)) = some sn ∧
+      (∀ h ∈ sn.hl, h.1 ≤ h.2 ∧ h.2 ≤ byteLen sn.fragment ∧
+        IsBoundary sn.fragment h.1 ∧ IsBoundary sn.fragment h.2) ∧
+      ∃ out, toHtml sn = some out := by
+  obtain ⟨hc, _⟩ := C19_ngram_offsets s hv minG maxG hmin hle false
+  apply C19_highlights_inside_records_partial
+  · refine ⟨?_, ?_⟩
+    · intro t ht
+      simp only [List.mem_map] at ht
+      obtain ⟨u, hu, rfl⟩ := ht
+      exact hc.inb u hu
+    · simp only [List.pairwise_map, toSTok]
+      exact hc.mono.imp (fun h => h.1)
+  · intro t ht
+    simp only [List.mem_map] at ht
+    obtain ⟨u, hu, rfl⟩ := ht
+    exact hlen u hu
+  · have := ngram_recOk s hv minG maxG hmin hle
+    simpa [ngramTokens, toSTok, mkToken, List.map_map, Function.comp_def] using this
 
 /-- if no single token is longer than `max_num_chars` bytes, the fragment has at most
 `max_num_chars` bytes, hence at most `max_num_chars` characters -/
@@ -436,6 +449,10 @@ example : SContract [⟨97, true⟩, ⟨233, true⟩, ⟨32, false⟩, ⟨98, tr
     ∧ ∀ t ∈ [(⟨0, 3, some 4⟩ : STok), ⟨4, 5, none⟩], t.to - t.from_ ≤ 3 :=
   ⟨⟨by decide, by decide⟩, by decide, by decide⟩
 example : [(⟨0, 3, some 4⟩ : STok), ⟨4, 5, none⟩].Pairwise (fun a b => a.to ≤ b.from_) := by decide
+example : RecOkN 0 0 ([(⟨0, 1, some 1⟩ : STok), ⟨0, 3, none⟩, ⟨1, 3, some 2⟩].map (·.to)) := by
+  simp [RecOkN]
+example : ∀ t ∈ ngramTokens [⟨97, true⟩, ⟨233, true⟩, ⟨98, true⟩] 1 2 false, t.to - t.from_ ≤ 3 := by
+  decide
 example : ∀ r ∈ [((0 : Nat), (3 : Nat)), (2, 5), (5, 7)], r.1 ≤ r.2 := by decide
 example : collapse [(2, 5), (0, 3), (5, 7), (0, 3)] = [(0, 5), (5, 7)] := by decide
 -- `<a> b` with `a` highlighted renders as `&lt;<b>a</b>&gt; b`
